@@ -62,22 +62,7 @@ impl Stream {
 //@ with
         allocator.new_atom(blob.data())
     }}
-//@ sig r
-    requires
-        stream_wf(*old(f)),
-        stream_seek(*old(f)) + 0x400000008 <= usize::MAX,
-    ensures
-        stream_wf(*final(f)), stream_same_data(*old(f), *final(f)),
-        alloc_extends(*old(allocator), *final(allocator)),
-        match dec_atom(b_, stream_rest(*old(f))) {
-            None => r is Err,
-            Some((atom, used)) => {
-                (r matches Ok(n) ==> atom_view(*final(allocator), n) == Some(atom)
-                    && stream_seek(*final(f)) == stream_seek(*old(f)) + used
-                    && stream_rest(*final(f)) == stream_rest(*old(f)).subrange(used, stream_rest(*old(f)).len() as int))
-                && (r is Err ==> alloc_limit_hit(*old(allocator), atom.len() as int))
-            }
-        },
+//@ sigfile r contracts/atom_from_stream.sig
 //@ before stmt @<if b == 0x80>@
     proof { broadcast use axiom_nil_is_empty_atom; }
     let ghost rest0 = stream_rest(*f);
